@@ -3,11 +3,13 @@
    Pass/SynthProofs.v (per-bit lowering, gate-level simulation, interface maps),
    Pass/SynthStructure.v (naturality: emitted gate expressions = their values),
    Pass/FlattenProofs.v (the synthesized block as a netlist under Sem.run),
-   Pass/FlattenShape.v (the shape predicate holds of that netlist).
+   Pass/FlattenShape.v (the shape predicate holds of that netlist),
+   Pass/SynthSanity.v (the premises follow from the regenerated sanity_check_net).
    `balg` = the gate algebra at bool; the generator expressions come from
    Gen/SynthGates.v, regenerated from /repo on every run. *)
 From Coq Require Import ZArith List Bool.
-From PyRTL Require Import Netlist.Sem Netlist.WFDefs Pass.BasicGates Pass.BasicGatesProofs Pass.Synth Pass.SynthProofs Pass.SynthStructure Pass.SynthHarness Pass.Flatten Pass.FlattenProofs Pass.FlattenShape.
+From PyRTL Require Import Netlist.Sem Netlist.WFDefs Pass.BasicGates Pass.BasicGatesProofs Pass.Synth Pass.SynthProofs Pass.SynthStructure Pass.SynthHarness Pass.Flatten Pass.FlattenProofs Pass.FlattenShape
+  Netlist.Sanity Gen.SanityNet Pass.SynthSanityDefs Pass.SynthSanity.
 Import ListNotations.
 Open Scope Z_scope.
 
@@ -216,6 +218,61 @@ Theorem C03_shape_netlist : forall merge nl,
 Proof. intros merge nl H1 H2 H3. exact (flatten_shape merge nl (incb_inc 0 _ H1) H2 H3). Qed.
 Print Assumptions C03_shape_netlist.
 
+(* ---------------- the premises are what PyRTL itself checks first ---------------- *)
+
+(* synthesize() begins with block_pre.sanity_check().  `check` (Gen/SanityNet.v) is the
+   list of the 38 `if ...: raise` of Block.sanity_check_net REGENERATED from
+   pyrtl/core.py on every run.  If none of them fires on a net (and bitwidths are
+   >= 1, which WireVector.__init__ enforces), the net satisfies the hand-written
+   premises net_synth_ok / arity_ok of every theorem above: equal argument widths,
+   destination widths within the natural result, select indices in range, a 1-bit
+   mux select and write enable, the right number of arguments. *)
+Theorem C03_sanity_check_establishes_premises : forall nl n,
+  widths_posb nl = true -> check (shape_of nl n) = None ->
+  net_synth_ok nl n = true /\ arity_ok (nop n) (length (nargs n)) = true.
+Proof. exact sanity_net_synth_ok. Qed.
+Print Assumptions C03_sanity_check_establishes_premises.
+
+Theorem C03_sanity_check_implies_synth_okb : forall nl,
+  widths_posb nl = true -> sanity_nets_okb nl = true ->
+  synth_okb nl = true /\ (forall n, In n (nets nl) -> arity_ok (nop n) (length (nargs n)) = true).
+Proof. exact sanity_implies_synth_ok. Qed.
+Print Assumptions C03_sanity_check_implies_synth_okb.
+
+(* C03_simulation / C03_simulation_netlist / C03_shape_netlist with the regenerated
+   check as premise instead of synth_okb *)
+Theorem C03_simulation_sanity_checked : forall nl regmap memmap inss,
+  wfb nl = true -> widths_posb nl = true -> sanity_nets_okb nl = true ->
+  legal_init nl regmap -> Forall (legal_ins nl) inss ->
+  Forall2 (wires_repr nl)
+    (fst (run nl 0 (init_state nl 0 regmap memmap) inss))
+    (fst (grun nl (ginit nl regmap memmap) inss)).
+Proof. exact simulation_sanity_checked. Qed.
+Print Assumptions C03_simulation_sanity_checked.
+
+Theorem C03_simulation_netlist_sanity_checked : forall merge nl regmap memmap inss,
+  ids_okb nl = true -> wfb nl = true -> widths_posb nl = true -> sanity_nets_okb nl = true ->
+  legal_init nl regmap -> Forall (legal_ins nl) inss ->
+  Forall2 (fun v vf => forall x, In x (wires nl) ->
+             v (wname x) = to_Z (map (flat_bit nl vf (wname x)) (seq 0 (wnat nl (wname x))))
+             /\ (merge = true -> is_out x = true -> vf (wname x) = v (wname x)))
+    (fst (run nl 0 (init_state nl 0 regmap memmap) inss))
+    (fst (run (flatten merge nl) 0 (flat_state nl (ginit nl regmap memmap)) (map (flat_ins nl) inss))).
+Proof.
+  intros merge nl regmap memmap inss H1 H2 Hp Hs.
+  exact (flatten_simulation merge nl H1 H2 (proj1 (sanity_implies_synth_ok nl Hp Hs)) regmap memmap inss).
+Qed.
+Print Assumptions C03_simulation_netlist_sanity_checked.
+
+Theorem C03_shape_netlist_sanity_checked : forall merge nl,
+  ids_okb nl = true -> wfb nl = true -> widths_posb nl = true -> sanity_nets_okb nl = true ->
+  shapeb merge (flatten merge nl) = true.
+Proof.
+  intros merge nl H1 H2 Hp Hs.
+  exact (flatten_shape merge nl (incb_inc 0 _ H1) H2 (proj1 (sanity_implies_synth_ok nl Hp Hs))).
+Qed.
+Print Assumptions C03_shape_netlist_sanity_checked.
+
 (* ---------------- interface maps keyed by the original objects ---------------- *)
 
 Theorem C03_maps_keyed_by_original : forall nl merge,
@@ -262,9 +319,10 @@ Proof. vm_compute. split; reflexivity. Qed.
    driven before it: the emitted order is a dependency order) *)
 Definition ex_small : netlist :=
   {| wires := [ mkWire 1 2 KInput; mkWire 2 2 (KReg (Some 2)); mkWire 3 3 KWire;
-                mkWire 4 1 KWire; mkWire 5 2 KOutput; mkWire 6 1 (KConst 1); mkWire 7 2 KWire ];
-     nets := [ mkNet OpSub [1; 2] 3; mkNet OpLt [1; 2] 4; mkNet OpMux [4; 1; 2] 5;
-               mkNet (OpMemWr 0) [1; 2; 6] 0; mkNet (OpMemRd 0) [5] 7; mkNet OpReg [7] 2 ];
+                mkWire 4 1 KWire; mkWire 5 2 KOutput; mkWire 6 1 (KConst 1); mkWire 7 2 KWire;
+                mkWire 8 2 KWire ];
+     nets := [ mkNet OpSub [1; 2] 3; mkNet OpLt [1; 2] 4; mkNet OpMux [4; 1; 2] 8; mkNet OpW [8] 5;
+               mkNet (OpMemWr 0) [1; 2; 6] 0; mkNet (OpMemRd 0) [8] 7; mkNet OpReg [7] 2 ];
      mems := [ mkMem 0 2 2 None ] |}.
 
 Example C03_example_flatten_shape :
@@ -316,6 +374,19 @@ Example C03_example_const_enable :
   /\ map (fun bv => map (fun w => bits_val bv w (wnat ex_en w)) [5; 6])
          (fst (grun ex_en (ginit ex_en [] [(0, [(1, 3)]); (1, [(1, 3)])]) [ (fun _ => 1); (fun _ => 1) ]))
      = [[3; 3]; [3; 1]].
+Proof. vm_compute. repeat split; reflexivity. Qed.
+
+(* the regenerated check accepts every net of the example designs (non-vacuity of the
+   `_sanity_checked` theorems), and rejects what the premises exclude: operands of
+   different widths (raise 15), a 2-bit mux select (raise 13) *)
+Example C03_example_sanity_premises :
+  widths_posb ex_nl = true /\ sanity_nets_okb ex_nl = true
+  /\ widths_posb ex_small = true /\ sanity_nets_okb ex_small = true
+  /\ widths_posb ex_en = true /\ sanity_nets_okb ex_en = true
+  /\ check (shape_of (mkNetlist [mkWire 1 3 KInput; mkWire 2 2 KInput; mkWire 3 4 KWire] [] [])
+                     (mkNet OpAdd [1; 2] 3)) = Some 15
+  /\ check (shape_of (mkNetlist [mkWire 1 2 KInput; mkWire 2 2 KInput; mkWire 3 2 KWire] [] [])
+                     (mkNet OpMux [1; 2; 2] 3)) = Some 13.
 Proof. vm_compute. repeat split; reflexivity. Qed.
 
 Example C03_example_sub : to_Z (basic_sub balg (of_Z 3 0) (of_Z 3 0)) = 0
